@@ -1,5 +1,5 @@
 """C01 — x86/x64 encodings: table / database / dispatch clauses (DESIGN.md section 3 / C01)."""
-from lib import cfg, x86tables, regen, pcrel
+from lib import cfg, x86tables, regen, pcrel, x86order
 from lib.regions import Regions
 
 UNIT = "asmjit/x86/x86assembler.cpp"
@@ -49,6 +49,25 @@ def run(chk):
     # C01.e RIP-relative displacements are relative to the end of the instruction (shared with C03/C04)
     pcrel.run(chk, emit, UNIT)
     pcrel.run_position(chk, emit, UNIT)
+
+    # C01.f prefix order, AH/AL ambiguity, packed-field tests (rules added after an independent probe of the unchanged tree)
+    x86order.prefix_order(chk, emit, UNIT)
+    x86order.gpb_compare(chk, emit, UNIT)
+    x86order.field_compare(chk, emit, UNIT)
+    fd = chk.facts(DBUNIT, tables=r"asmjit::x86::InstDB::(_inst_info_table|main_opcode_table|alt_opcode_table)$", enums=r"asmjit::x86::Inst::Id$|asmjit::x86::Opcode::Bits$")
+    OB = {n: v for n, v in fd["enums"]["asmjit::x86::Opcode::Bits"]["enumerators"]}
+    rows = fd["tables"]["asmjit::x86::InstDB::_inst_info_table"]["value"]
+    mainop = fd["tables"]["asmjit::x86::InstDB::main_opcode_table"]["value"]
+    altop = fd["tables"]["asmjit::x86::InstDB::alt_opcode_table"]["value"]
+    encn = {v: n for n, v in enum["enumerators"]}
+    nine = set()
+    for r in rows:
+        for opc in (mainop[r["_main_opcode_index"]] | r["_main_opcode_value"], altop[r["_alt_opcode_index"]]):
+            if opc and (opc & OB["kPP_FPUMask"]) == OB["kPP_9B"]:
+                nine.add(encn.get(r["_encoding"], "?"))
+    starts = {b["label"]["name"]: b["id"] for b in emit.blocks.values() if b.get("label") and b["label"]["kind"] == "case" and b["label"]["name"] in nine}
+    chk.need(len(starts) == len(nine), "dispatch cases of the kPP_9B encodings %s not found" % sorted(nine - set(starts)))
+    x86order.fwait_first(chk, emit, UNIT, starts)
 
     # C01.b rows vs database
     try:
